@@ -63,6 +63,7 @@ type docLine struct {
 	name   string // open/close: domain name
 	key    string
 	hasKey bool
+	glue   bool // no line break after this line (an open tag followed by an entry, an entry followed by a close tag)
 }
 
 type doc struct {
@@ -73,8 +74,11 @@ type doc struct {
 
 func (d *doc) text() string {
 	var sb strings.Builder
-	for _, l := range d.lines {
+	for i, l := range d.lines {
 		sb.WriteString(l.text)
+		if l.glue && i+1 < len(d.lines) && ((l.kind == 2 && d.lines[i+1].kind == 1) || (l.kind == 1 && d.lines[i+1].kind == 3)) {
+			continue // "<a>k=v" / "k=v</a>": tags delimit text runs, a line break is not needed
+		}
 		sb.WriteString(d.eol)
 	}
 	return sb.String()
@@ -164,7 +168,7 @@ func genDoc(r *rand.Rand, maxEntries int) (*doc, []typedEntry) {
 		for i := 0; i < n || (depth > 0 && budget > 0 && r.Intn(3) != 0); i++ {
 			c := r.Intn(10)
 			switch {
-			case depth == 0 || (c < 3 && depth < 6):
+			case (depth == 0 && c < 7) || (depth > 0 && c < 3 && depth < 6):
 				// sub-domain (possibly re-opening an existing one)
 				var name string
 				if len(dom.order) > 0 && r.Intn(4) == 0 {
@@ -179,7 +183,7 @@ func genDoc(r *rand.Rand, maxEntries int) (*doc, []typedEntry) {
 					}
 				}
 				s := dom.sub(name)
-				d.lines = append(d.lines, docLine{text: indent + "<" + name + ">" + padding(r), kind: 2, dom: s, name: name})
+				d.lines = append(d.lines, docLine{text: indent + "<" + name + ">" + padding(r), kind: 2, dom: s, name: name, glue: r.Intn(2) == 0})
 				gen(s, depth+1)
 				d.lines = append(d.lines, docLine{text: indent + "</" + name + ">" + padding(r), kind: 3, dom: s, name: name})
 			case c == 3:
@@ -231,7 +235,7 @@ func genDoc(r *rand.Rand, maxEntries int) (*doc, []typedEntry) {
 				if has {
 					usedKeys[k] = true
 				}
-				d.lines = append(d.lines, docLine{text: raw, kind: 1, dom: dom, key: k, hasKey: has})
+				d.lines = append(d.lines, docLine{text: raw, kind: 1, dom: dom, key: k, hasKey: has, glue: r.Intn(2) == 0})
 			}
 		}
 	}
@@ -318,10 +322,15 @@ func checkComplete(c *conf.Conf, root *domain, skipDom *domain, skipKey, skipLin
 	var doms []*domain
 	root.all(&doms)
 	for _, d := range doms {
-		if d == root {
-			continue
+		p := d.path // "" for the root: "<k>" and "/<k>" address top-level keys, "" and "/" list the top level
+		if d == root && skipDom == nil {
+			if gd := sortedCopy(c.GetDomain("/")); !eqStrs(gd, sortedCopy(d.order)) {
+				return fmt.Sprintf("GetDomain(%q) = %q, document has %q", "/", gd, sortedCopy(d.order))
+			}
+			if gl := sortedCopy(c.GetDomainLine("/")); !eqStrs(gl, sortedCopy(d.lines)) {
+				return fmt.Sprintf("GetDomainLine(%q) = %q, document has %q", "/", gl, sortedCopy(d.lines))
+			}
 		}
-		p := d.path
 		gm := c.GetMap(p)
 		for k, v := range d.kv {
 			if d == skipDom && k == skipKey {
